@@ -10,7 +10,7 @@
 (* trace spec does not branch: the search is one path and the depth TLC    *)
 (* reports is the number of events explained (acceptance: all of them).    *)
 (***************************************************************************)
-EXTENDS FlexScanner, TLC, Json, IOUtils
+EXTENDS FlexScanner, Json, IOUtils
 
 Cases == ndJsonDeserialize(IOEnv.CASES)
 RSetsDef == [k \in 1..Len(Cases) |-> Compile(Cases[k].src)]
@@ -22,17 +22,21 @@ tvars == <<svars, l>>
 E == Tr[l]
 Is(e) == l <= Len(Tr) /\ E.e = e /\ l' = l + 1
 
-StateOK == /\ E.sc = sc' /\ E.lineno = lineno' /\ E.depth = Len(stk')
-           /\ opt'.bolneeded => (E.bol = IF bol' THEN 1 ELSE 0)
+StateOK == /\ E.sc = sc' /\ E.depth = Len(stk')
+           /\ (opt'.reentrant /\ cur' = 0) \/ E.lineno = lineno'     \* reentrant: yylineno lives in the current buffer
+           /\ (opt'.bolneeded /\ cur' # 0) => (E.bol = IF bol' THEN 1 ELSE 0)
+BufOK == StateOK /\ E.cur = cur'
 Same == UNCHANGED svars
 
 TInit == SInit /\ l = 1
 
 TReset == /\ Is("Reset")
-          /\ Reset(E.rs, E.input, [interactive |-> E.interactive, array |-> E.array, lno |-> E.linenoopt,
+          /\ Reset(E.rs, E.files, [interactive |-> E.interactive, array |-> E.array, lno |-> E.linenoopt,
                                    bolneeded |-> E.bolneeded, rejectmode |-> E.rejectmode, bufsize |-> E.bufsize,
-                                   strictread |-> E.strictread])
-TRead  == Is("Read") /\ E.got = Len(E.bytes) /\ E.got <= Len(inp) /\ E.bytes = SubSeq(inp, 1, E.got) /\ Read(E.got)
+                                   strictread |-> E.strictread, reentrant |-> E.reentrant, userwrap |-> E.userwrap])
+TCall  == Is("Call") /\ Call
+TRead  == /\ Is("Read") /\ E.f + 1 = ReadFile /\ E.got = Len(E.bytes) /\ ReadFile <= Len(files)
+          /\ E.got <= Len(files[ReadFile]) /\ E.bytes = SubSeq(files[ReadFile], 1, E.got) /\ Read(E.got)
 TTok   == /\ Is("Tok") /\ E.leng >= Len(pfx)
           /\ \/ Match(E.rule, E.leng - Len(pfx))
              \/ MatchAgain(E.rule, E.leng - Len(pfx))
@@ -50,17 +54,33 @@ TPop    == Is("Pop") /\ Pop /\ StateOK
 TPopU   == Is("PopU") /\ PopUnderflow /\ l + 1 <= Len(Tr) /\ Tr[l + 1].e = "Fatal"
 TTop    == Is("Top") /\ TopIs(E.v) /\ Same
 TSetBol == Is("SetBol") /\ SetBol(E.v = 1) /\ StateOK
-TEof    == Is("Eof") /\ AtEof(E.k) /\ StateOK
-TEnd    == Is("End") /\ (IF phase = "done" THEN Same ELSE AtEof(0))
+TEof    == Is("Eof") /\ (IF opt.userwrap THEN EofAct(E.k) ELSE AtEof(E.k)) /\ StateOK
+\* yylex() returned 0: either an <<EOF>> action just did that, or the default one does
+TEnd    == Is("End") /\ (IF phase = "done" THEN Same ELSE IF opt.userwrap THEN EofAct(0) ELSE AtEof(0))
+TFin    == Is("Fin") /\ phase \in {"done", "out"} /\ Same
 TFatal  == /\ Is("Fatal")
            /\ \/ E.cls = "underflow" /\ phase = "fatal" /\ Same
               \/ E.cls = "rejectoverflow" /\ FatalRejectOverflow
               \/ E.cls = "pushback" /\ FatalPushback
 
-TNext == \/ TReset \/ TRead \/ TTok \/ TReject \/ TActEnd \/ TRet \/ TLess \/ TMore \/ TUnput \/ TInput
-         \/ TBegin \/ TPush \/ TPop \/ TPopU \/ TTop \/ TSetBol \/ TEof \/ TEnd \/ TFatal
+TWrapEnter == Is("WrapEnter") /\ WrapEnter /\ BufOK
+TWrapRet   == Is("WrapRet") /\ (IF E.r = 1 THEN WrapRet1 ELSE WrapRet0) /\ BufOK
+TSetYyin   == Is("SetYyin") /\ SetYyin(E.f + 1) /\ BufOK
+TNewBuf    == Is("NewBuf") /\ NewBuf(E.b, E.f + 1) /\ BufOK
+TNewMem    == Is("NewMem") /\ ScanMem(E.b, E.bytes) /\ BufOK
+TScanFail  == Is("ScanFail") /\ E.null = 1 /\ Same      \* no two terminating NULs: yy_scan_buffer returns NULL
+TSwitch    == Is("Switch") /\ SwitchTo(E.b) /\ BufOK
+TPushBuf   == Is("PushBuf") /\ PushBuf(E.b) /\ BufOK
+TPopBuf    == Is("PopBuf") /\ PopBuf /\ BufOK
+TFlush     == Is("Flush") /\ Flush(E.b) /\ BufOK
+TDelete    == Is("Delete") /\ Delete(E.b) /\ BufOK
+TRestart   == Is("Restart") /\ Restart(E.f + 1) /\ BufOK
+
+TNext == \/ TReset \/ TCall \/ TRead \/ TTok \/ TReject \/ TActEnd \/ TRet \/ TLess \/ TMore \/ TUnput \/ TInput
+         \/ TBegin \/ TPush \/ TPop \/ TPopU \/ TTop \/ TSetBol \/ TEof \/ TEnd \/ TFin \/ TFatal
+         \/ TWrapEnter \/ TWrapRet \/ TSetYyin \/ TNewBuf \/ TNewMem \/ TScanFail \/ TSwitch \/ TPushBuf
+         \/ TPopBuf \/ TFlush \/ TDelete \/ TRestart
 TSpec == TInit /\ [][TNext]_tvars
 
-TView == <<svars, l>>
 Accepted == TLCGet("stats").diameter - 1 = Len(Tr)
 =============================================================================
